@@ -18,9 +18,10 @@ TBegin    == IsEvent("begin") /\ UNCHANGED rvars          \* marks the start of 
 TSetBase  == IsEvent("setbaseline") /\ RSetBaseline
 TSameBase == IsEvent("samebaseline") /\ RSameAsBaseline
 TAbort    == IsEvent("abort") /\ RAbort
+TLead     == IsEvent("leadcall") /\ RLeadCall(E.ret, E.failed)
 
 Init == RInit /\ l = 1
-Next == TOpen \/ TRead \/ TClose \/ TTool \/ TGetChunk \/ TScan \/ TValData \/ TSame \/ TSetBase \/ TSameBase \/ TBegin \/ TAbort
+Next == TOpen \/ TRead \/ TClose \/ TTool \/ TGetChunk \/ TScan \/ TValData \/ TSame \/ TSetBase \/ TSameBase \/ TBegin \/ TAbort \/ TLead
 Spec == Init /\ [][Next]_tvars
 Accepted == /\ PrintT(<<"MATCHED", TLCGet("stats").diameter - 1, Len(TraceLog)>>)
             /\ TLCGet("stats").diameter - 1 = Len(TraceLog)
